@@ -9,6 +9,8 @@ import (
 )
 
 var registry = map[string]simkit.World{
+	"C01": fsmworld.C01{},
+	"C02": fsmworld.C02{},
 	"C03": fsmworld.C03{},
 	"C04": fsmworld.C04{},
 	"C20": archiveworld.World{},
